@@ -353,7 +353,7 @@ func (sfd *StatusFileData) UpdateFullStatus(filename string, statusFunc func(*St
 	verifOldState, verifOldSize, verifOldDetail := sfd.State, sfd.StdoutSize, sfd.Detail
 	statusFunc(sfd)
 	verifhook.Emit("sf", "sf_apply", "file", filename, "fsize", size, "old_state", verifOldState, "old_size", verifOldSize, "old_detail", verifOldDetail,
-		"new_state", sfd.State, "new_size", sfd.StdoutSize, "new_detail", sfd.Detail, "type", sfd.WorkType)
+		"new_state", sfd.State, "new_size", sfd.StdoutSize, "new_detail", sfd.Detail, "type", sfd.WorkType, "rec", sfd.verifRec())
 	_, err = file.Seek(0, 0)
 	if err != nil {
 		return err
